@@ -414,6 +414,18 @@ pub fn gen_c12(seed: u64, thorough: bool, only: Option<u64>, out: &mut Out) {
         }
       }
     }
+    // blinding from several client threads at once: still fresh
+    {
+      let inp = input.clone();
+      let pts: Vec<Vec<u8>> = std::thread::scope(|sc| {
+        let hs: Vec<_> = (0..4).map(|_| { let i2 = inp.clone(); sc.spawn(move || (0..3).map(|_| blind(&i2).0).collect::<Vec<_>>()) }).collect();
+        hs.into_iter().flat_map(|h| h.join().unwrap()).collect()
+      });
+      let set: BTreeSet<&Vec<u8>> = pts.iter().collect();
+      if set.len() != pts.len() {
+        verdict = Err("blinded requests made from different client threads coincide".to_string());
+      }
+    }
     let distinct: BTreeSet<&Vec<u8>> = per_tag.values().collect();
     if distinct.len() != per_tag.len() {
       verdict = Err("two tags give the same output for one input".to_string());
@@ -565,6 +577,18 @@ pub fn gen_c13(seed: u64, thorough: bool, only: Option<u64>, out: &mut Out) {
         }
       }
     }
+    // a dishonest server: its own key, but advertising (and hashing) the honest server's public key
+    {
+      let mut rogue = Server::new(mds.clone()).expect("server");
+      let honest_pk_len = pkb.len();
+      let mut st = export(&rogue);
+      st[32..32 + honest_pk_len].copy_from_slice(&pkb);
+      import_into(&mut rogue, &st);
+      if let Ok(fe) = rogue.eval(&Point::from(&b[..]), md, true) {
+        let fpr = fe.proof.as_ref().unwrap().serialize_to_bincode().unwrap();
+        emit(&pkb, &b, fe.output.as_bytes(), Some(&fpr), md, false, "evaluation and proof made with a different key over the honest public key", out);
+      }
+    }
     if let (Some(e1), Some(e2)) = (&ev_other_tag, &ev_other_srv) {
       emit(&pkb, &b, &outb, Some(&e1.proof.as_ref().unwrap().serialize_to_bincode().unwrap()), md, false, "proof issued for another tag", out);
       emit(&pkb, &b, &outb, Some(&e2.proof.as_ref().unwrap().serialize_to_bincode().unwrap()), md, false, "proof issued by another server", out);
@@ -645,10 +669,12 @@ pub fn gen_c15(seed: u64, thorough: bool, _only: Option<u64>, out: &mut Out) {
             v = Err("truncated evaluation JSON was accepted".to_string());
           }
         }
-        let short = js.replacen(&js[11..15], "", 1);
-        if let Ok(e3) = serde_json::from_str::<Evaluation>(&short) {
-          if e3.output.as_bytes().len() != 32 || e3.output == ev.output {
-            v = Err("damaged evaluation JSON was accepted".to_string());
+        // an output string that decodes to fewer / more than 32 bytes, or to nothing
+        let b64 = &js[11..55];
+        for bad in [b64[..40].to_string(), b64[..4].to_string(), String::new(), format!("{}AAAA", b64), b64.replace(&b64[0..1], "!")] {
+          let damaged = js.replacen(b64, &bad, 1);
+          if damaged != js && serde_json::from_str::<Evaluation>(&damaged).is_ok() {
+            v = Err(format!("evaluation JSON whose output is not a 32-byte base64 string was accepted ({} chars)", bad.len()));
           }
         }
         out.case(format!("cl.finalize {} {} {}", hex(b"json"), mds[0], hex(ev.output.as_bytes())), { let mut f = [0u8; 32]; Client::finalize(b"json", mds[0], &ev.output, &mut f); hex(&f) }, v);
